@@ -61,7 +61,7 @@ def cases(tier, seed):
         for fam in ("default", "batch", "sgpr", "svgp_whitened", "svgp_unwhitened", "svgp_meanfield"):
             for _ in range(4 if tier == "quick" else 150):
                 yield {"kind": "history", "family": fam, "length": rnd.randint(3, 6), "seed": rnd.randrange(10**6)}
-            for directed in (["pred", "load_sd", "pred"], ["pred_eager", "load_sd", "load_sd", "pred"], ["pred", "set_data", "pred"], ["pred", "load_sd", "pred_batch"]):
+            for directed in (["pred", "load_sd", "pred"], ["pred_eager", "load_sd", "load_sd", "pred"], ["pred", "set_data", "pred"], ["pred", "load_sd", "pred_batch"], ["pred_fpv", "set_data_inplace", "pred_fpv"], ["pred", "fantasy_selfcheck"], ["pred_fpv", "train_step", "fantasy_selfcheck"], ["pred", "train_step", "set_data_inplace", "pred_fpv"]):
                 yield {"kind": "history", "family": fam, "seq": directed, "seed": rnd.randrange(10**6)}
 
 
@@ -196,7 +196,7 @@ def _history(case, ctx, g):
     fam = H.FAMILIES[case["family"]](case["seed"] % 1000)
     ops = [o for o in H.ops_for(case["family"]) if o != "backward" and not (case["family"] == "sgpr" and o in ("fantasy", "pred_eager"))]
     if "seq" in case:
-        seq = [o for o in case["seq"] if o in H.ops_for(case["family"])]
+        seq = [o for o in case["seq"] if o in H.ops_for(case["family"]) or (o in ("set_data_inplace", "fantasy_selfcheck") and fam.exact and case["family"] not in ("hadamard_two_inputs", "sgpr"))]
     else:
         seq = ["pred"] + [rnd.choice(ops) for _ in range(case["length"])] + [rnd.choice(["pred", "pred_fpv" if fam.exact else "pred", "pred_eager"])]
     state = {"fam": fam}
@@ -224,7 +224,7 @@ def _history(case, ctx, g):
             del ctx._fail[mark:]
             ctx.reject(f"numerically dead state after {op}: {case['family']}")
             return
-        if out is not None and op != "pred_skipvar":
+        if out is not None and op not in ("pred_skipvar", "fantasy_selfcheck"):
             _psd_report(ctx, "history_covariance_psd", out[1], f"prediction ({op}) after {seq}", family=case["family"], op=op)
             ctx.expect("history_variance_nonnegative", bool((torch.diagonal(out[1], dim1=-2, dim2=-1) >= -1e-9).all()), f"negative predictive variance after {seq}", family=case["family"])
     ctx.cell({"family": case["family"], "seq": seq})
@@ -347,6 +347,22 @@ def _model(case, ctx, g):
                            f"variance {float(v2.min()):.3e} / stddev {float(s2.min()):.3e} below min_variance {mv}", min_variance=mv)
                 lo, hi = m(xs).confidence_region()
                 ctx.expect("variance_floor", bool((hi - lo >= 4 * mv**0.5 * (1 - 1e-9)).all()), f"confidence region narrower than 4*sqrt(min_variance={mv})", min_variance=mv)
+        # fantasy children (their covariance comes from updated, not recomputed, roots): a tight cluster of new observations
+        # away from the data, and new observations inside it; looked at where the cluster sits
+        if not b and case["geom"] in ("random", "dups"):
+            for tag, Xf in (("cluster_outside", X.mean(-2, keepdim=True) + 6.0 + 0.02 * util.randn(g, 3, d)), ("inside", X[:2] + 0.3 * util.randn(g, 2, d))):
+                try:
+                    fm = m.get_fantasy_model(Xf, torch.sin(Xf.sum(-1)))
+                except Exception:
+                    ctx.info["fantasy_refused"] += 1
+                    continue
+                xq = torch.cat([Xf + 0.01 * util.randn(g, *Xf.shape), xs[:3]])
+                pf = fm(xq)
+                _psd_report(ctx, "fantasy_covariance_psd", pf.covariance_matrix, f"fantasy model ({tag}) posterior", kernel=case["kernel"], geom=case["geom"], fast_pred_var=case["fast_pred_var"], where=tag)
+                vf_ = torch.diagonal(pf.covariance_matrix, dim1=-2, dim2=-1)
+                # conditioning on more data never raises a variance: below the source's variance at the same points
+                vs_ = torch.diagonal(m(xq).covariance_matrix, dim1=-2, dim2=-1)
+                ctx.expect("nested_data_variance_monotone", bool((vf_ <= vs_ + 1e-8 * vs_.abs().max() + (1e-5 if case["fast_pred_var"] else 1e-9)).all()), f"fantasy model ({tag}) variance exceeds its source's: max excess {float((vf_ - vs_).max()):.3e}", where=tag)
     ctx.cell({k: v for k, v in case.items() if k != "seed"})
 
 
